@@ -99,3 +99,10 @@ claim('C20',
 claim('C16',
       'Bounded proof over the real vr32.c arithmetic: slew set-up (set_step_step) and vr_set_io_ratio during a cross-fade (both streams reach the same ratio), per-frame stepping of poly_fir_u/d, forwarding of ratio/slew to every channel and refusal by constant-rate engines (real soxr.c).',
       'Partial: audio statements not decided; the stage-switch block inside vr_process gave no verdict (seed C16 not detected); slew lengths from a stated list, |target-step| < 2^20 (quick).')
+
+claim('C13',
+      'Bounded proof over the real engine-selection logic of soxr_create (precision/flags/SOXR_USE_SIMD* overrides symbolic, CPU detection nondeterministic); symbolic-impulse lemma for the half-band kernels of cr32/cr64/cr32s taken from the real half_firs[] rows (every tap applied to the right sample, SSE shuffles modelled exactly); fixed-length portable kernels vs general kernels on their poly_firs[] rows (concrete probes); both coefficient layouts filled by the same code; shared accounting lemmas.',
+      'Partial: numerical agreement of SIMD vs portable kernels within the precision is floating-point error analysis and is NOT claimed; AVX kernels and the interpolated SIMD poly-phase kernels are not compared.')
+claim('C09',
+      'Bounded proof over the real soxr_create/soxr_set_io_ratio/initialise with every spec field symbolic (no NaN) over the abstract engine: NULL iff error, named out-of-range inputs rejected, env overrides applied only in range, every channel created alike; sticky error; set_dft_length for all lengths x documented sizes; dft_stage_init envelope incl. the pffft set-up precondition; _soxr_init rejects every out-of-range spec before touching the object and its halving loop terminates; ENV-(b) for ~750 accepted configurations.',
+      'Trusted: cbmc; abstract engine; output rate and channel count constant per obligation; NaN fields outside the claim; "yields a working resampler" beyond safety is the other properties\' content.', technique=HY)
